@@ -2,44 +2,88 @@
 //! sharing.
 //!
 //! E2 (programs, no state merging): every program over a pool of three handle
-//! slots and the mutators {new(heap kind, content), new(inline kind), clone,
-//! move, drop} up to the depth bound is executed from scratch on real
-//! `TimeZone` values; after *every* step all observers run (query every live
-//! handle, compare every pair, wrap every handle in a `Zoned`) and a counting
-//! allocator is compared with a boring reference model: a heap-backed zone's
-//! blocks are live iff the model holds at least one handle of its group.
+//! slots and the mutators {new(maker), clone, clone_from, self-assign, move,
+//! swap, drop (, cache reset)} up to the depth bound is executed from scratch
+//! on real `TimeZone` values; after *every* step all observers run (query
+//! every live handle through every read path, compare every pair, move a
+//! clone through `Zoned`) and a counting allocator is compared with a boring
+//! reference model: a heap-backed zone's blocks are live iff the model holds
+//! at least one handle of its group (the database cache counts as a holder).
 //!
 //! E3 (schedules at handle-operation granularity): every interleaving of the
 //! per-thread scripts of 2-3 threads is executed on real OS threads under a
-//! baton that serialises whole operations in the enumerated order.
+//! baton that serialises whole operations in the enumerated order. A
+//! free-running pass of the same operations (no baton) exists for the builds
+//! whose oracle can see a race in the count itself (Miri's data-race detector;
+//! ASan for the resulting use-after-free).
 //!
 //! With `--cfg c20_plain_alloc` (the Miri and AddressSanitizer builds) the
 //! counting allocator is replaced by the system allocator and the sanitizer is
 //! the memory-safety oracle.
+//!
+//! Sections (all deterministic, no sampling):
+//!   system-local            unnamed TZif handle from `TimeZone::try_system` (TZ=<file>)
+//!   programs:<H>+<I>        10 classic pairs: heap kind H in {Tzif, Posix} (two contents) + inline kind I
+//!   programs-classic:<..>   thorough: the four original mutators at full depth for the pairs whose wide run stays at the quick depth
+//!   programs:Tzif+Posix     both Arc kinds in one pool (+ the static kind)
+//!   programs:Db+<I>         handles cloned out of the bundled database cache, `reset` in the alphabet (serial)
+//!   fixed-offsets           all 187 199 offsets through every read path; eq against bit-neighbours (quick) / all pairs (thorough)
+//!   schedules               baton-serialised interleavings (threads kept between schedules; thread end = scheduled `Exit`)
+//!   constructors            every public path that creates a TimeZone, each put through a life-cycle drill
+//!   unwind                  panics while handles are live (moved in / borrowed / last handle / Zoned+Vec / other thread)
+//!   eq-matrix               every pair/triple of a pool holding every kind (and equal data in different allocations)
+//!   free-running            unserialised threads hammering clone/drop/eq/query and the database cache
+//!
+//! Robustness of the counting build on a broken tree: the allocator's view is
+//! consulted before anything is read through a handle a wrong count could
+//! have left dangling (also inside the observers, which clone and drop
+//! themselves); sections that cannot do so are skipped once there is a
+//! verdict; the enumeration runs in a child process and a fatal signal there
+//! becomes a `crash/<signal>:<section>` violation (written by the child's
+//! handler if its heap still works, by the parent otherwise).
+//!
+//! Driver invocations this binary is written for:
+//!   counting build    c20 --tier T --out F
+//!   ASan+LSan build   c20 --tier T --depth 4|5 --out F           (everything; all-pairs offsets left out)
+//!   Miri              c20 --tier quick --depth 3 --programs-only --section programs:<pair> --out F
+//!                     c20 --tier quick --section free-running --out F   (data-race detector on the unserialised threads)
+//!   TSan (optional)   built with -Zsanitizer=thread -Zbuild-std: c20 --tier quick --section free-running --out F
 
-use jiff::tz::{Offset, TimeZone};
+use jiff::tz::{Offset, TimeZone, TimeZoneDatabase};
 use jiff::{Timestamp, Zoned};
 use rayon::prelude::*;
 use serde_json::json;
 use std::sync::atomic::{AtomicI64, AtomicU64, AtomicUsize, Ordering};
 use vf::{guard, panic_sig, Report};
 
+#[path = "c20/kinds.rs"]
+mod kinds;
+#[path = "c20/extra.rs"]
+mod extra;
+#[path = "c20/sched.rs"]
+mod sched;
+
+use kinds::{check_handle, make, want, wrap, Desc};
+
 // ---------------------------------------------------------------------------
 // counting allocator
 // ---------------------------------------------------------------------------
 
-const NG: usize = 32; // groups per thread slot
-const NSLOTS: usize = 512;
-static LIVE: [AtomicI64; NG * NSLOTS] = [const { AtomicI64::new(0) }; NG * NSLOTS];
-static DOUBLE_FREE: AtomicU64 = AtomicU64::new(0);
+pub const NG: usize = 32; // groups per thread slot
+pub const NSLOTS: usize = 512;
+pub static LIVE: [AtomicI64; NG * NSLOTS] = [const { AtomicI64::new(0) }; NG * NSLOTS];
+/// second frees, per group of the block (index 0: untagged or unrecognisable)
+pub static DFREE: [AtomicU64; NG * NSLOTS] = [const { AtomicU64::new(0) }; NG * NSLOTS];
+/// `dealloc` called with a layout whose size differs from the one allocated
+pub static BADLAYOUT: [AtomicU64; NG * NSLOTS] = [const { AtomicU64::new(0) }; NG * NSLOTS];
 static NEXT_SLOT: AtomicUsize = AtomicUsize::new(0);
 
 thread_local! {
-    static TAG: std::cell::Cell<usize> = const { std::cell::Cell::new(0) };
+    pub static TAG: std::cell::Cell<usize> = const { std::cell::Cell::new(0) };
     static SLOT: std::cell::Cell<usize> = const { std::cell::Cell::new(usize::MAX) };
 }
 
-fn my_slot() -> usize {
+pub fn my_slot() -> usize {
     SLOT.with(|s| {
         if s.get() == usize::MAX {
             s.set(NEXT_SLOT.fetch_add(1, Ordering::SeqCst) % NSLOTS);
@@ -55,6 +99,7 @@ mod counting {
     const HDR: usize = 16;
     const MAGIC_LIVE: u64 = 0xA11C_A11C_0000_0000;
     const MAGIC_FREED: u64 = 0xDEAD_F4EE_0000_0000;
+    const MASK: u64 = 0xFFFF_FFFF_0000_0000;
     pub struct Counting;
     unsafe impl GlobalAlloc for Counting {
         unsafe fn alloc(&self, l: Layout) -> *mut u8 {
@@ -80,12 +125,20 @@ mod counting {
             }
             let base = p.sub(HDR);
             let h = (base as *mut u64).read();
-            if h & 0xFFFF_FFFF_0000_0000 != MAGIC_LIVE {
-                // freed twice (or never ours): record, do not touch the heap again
-                DOUBLE_FREE.fetch_add(1, Ordering::SeqCst);
+            if h & MASK != MAGIC_LIVE {
+                // freed twice (or never ours): record against the block's
+                // group if the header still says so, do not touch the heap again
+                let tag = if h & MASK == MAGIC_FREED { (h & 0xFFFF_FFFF) as usize } else { 0 };
+                DFREE[if tag < NG * NSLOTS { tag } else { 0 }].fetch_add(1, Ordering::SeqCst);
                 return;
             }
             let tag = (h & 0xFFFF_FFFF) as usize;
+            let size = (base as *mut u64).add(1).read() as usize;
+            if size != l.size() {
+                // freed as a different type than it was allocated as; release
+                // with the true size so that the heap stays intact
+                BADLAYOUT[tag].fetch_add(1, Ordering::SeqCst);
+            }
             if tag != 0 {
                 LIVE[tag].fetch_sub(1, Ordering::SeqCst);
                 // Quarantine tagged blocks, poisoned: a later use through a
@@ -93,7 +146,7 @@ mod counting {
                 // a second free is recognised by the header. The oldest
                 // quarantined block of this thread is released in exchange.
                 (base as *mut u64).write(MAGIC_FREED | tag as u64);
-                std::ptr::write_bytes(p, 0xDD, l.size());
+                std::ptr::write_bytes(p, 0xDD, size);
                 let old = QUARANTINE.try_with(|q| {
                     let (ring, pos) = &mut *q.get();
                     let old = ring[*pos];
@@ -107,12 +160,12 @@ mod counting {
                         System.dealloc(old, Layout::from_size_align_unchecked(size + HDR, HDR));
                     }
                     Ok(_) => {}
-                    Err(_) => System.dealloc(base, Layout::from_size_align_unchecked(l.size() + HDR, HDR)),
+                    Err(_) => System.dealloc(base, Layout::from_size_align_unchecked(size + HDR, HDR)),
                 }
                 return;
             }
             (base as *mut u64).write(MAGIC_FREED);
-            System.dealloc(base, Layout::from_size_align_unchecked(l.size() + HDR, HDR));
+            System.dealloc(base, Layout::from_size_align_unchecked(size + HDR, HDR));
         }
     }
     thread_local! {
@@ -122,129 +175,160 @@ mod counting {
     static A: Counting = Counting;
 }
 
-fn live(group: usize) -> i64 {
+pub fn live(group: usize) -> i64 {
     if cfg!(c20_plain_alloc) {
         return -1;
     }
     LIVE[group].load(Ordering::SeqCst)
 }
 
+/// Takes (and clears) the allocator's complaints about one group.
+pub fn alloc_complaint(group: usize) -> Option<(String, String)> {
+    let d = DFREE[group].swap(0, Ordering::SeqCst);
+    if d != 0 {
+        return Some(("double-free".into(), format!("{} block(s) of the group freed twice", d)));
+    }
+    let b = BADLAYOUT[group].swap(0, Ordering::SeqCst);
+    if b != 0 {
+        return Some(("dealloc-layout-mismatch".into(), format!("{} block(s) freed with another size than allocated", b)));
+    }
+    None
+}
+
+pub fn reset_group(group: usize) {
+    LIVE[group].store(0, Ordering::SeqCst);
+    DFREE[group].store(0, Ordering::SeqCst);
+    BADLAYOUT[group].store(0, Ordering::SeqCst);
+}
+
+pub const COUNTING: bool = !cfg!(c20_plain_alloc);
+
 // ---------------------------------------------------------------------------
-// handle kinds
+// a crash is a verdict, not an engine failure
 // ---------------------------------------------------------------------------
 
-#[derive(Clone, Copy, PartialEq, Eq, Debug)]
-enum Heap {
-    Tzif,
-    Posix,
-}
-#[derive(Clone, Copy, PartialEq, Eq, Debug)]
-enum Inline {
-    Utc,
-    Unknown,
-    FixedPlus,
-    FixedMinus,
-    Static,
-}
+static REPORT_PTR: std::sync::atomic::AtomicPtr<Report> = std::sync::atomic::AtomicPtr::new(std::ptr::null_mut());
+static CUR_SECTION: std::sync::Mutex<String> = std::sync::Mutex::new(String::new());
+static CRASHING: std::sync::atomic::AtomicBool = std::sync::atomic::AtomicBool::new(false);
 
-/// A minimal TZif v2 file with one transition at t=1e9 (so that queries touch
-/// the transition table and the designation strings) and a footer.
-fn tiny_tzif(content: u8) -> Vec<u8> {
-    let (o1, o2) = if content == 0 { (3600i32, 7200i32) } else { (-3600i32, -7200i32) };
-    let abbrs = b"AAA\0BBB\0";
-    let mut v1 = vec![];
-    v1.extend_from_slice(b"TZif2");
-    v1.extend_from_slice(&[0u8; 15]);
-    for n in [0u32, 0, 0, 0, 1, 4] {
-        v1.extend_from_slice(&n.to_be_bytes());
+/// SIGSEGV / SIGBUS / SIGILL / SIGABRT while jiff code runs on live handles
+/// (a handle read after its zone was freed, one Arc kind read as the other):
+/// the property is violated. The result file is written from the handler with
+/// a `crash/<signal>:<section>` violation. Best effort: a second fault while
+/// doing so ends the process with the signal's conventional exit status.
+/// (The sanitizer builds keep their own handlers.)
+extern "C" fn on_crash(sig: libc::c_int) {
+    let r = REPORT_PTR.load(Ordering::SeqCst);
+    if CRASHING.swap(true, Ordering::SeqCst) {
+        // a second fault (while writing the result, or in the exit handlers
+        // afterwards): the supervising process sorts out what is on disk
+        unsafe { libc::_exit(128 + sig) }
     }
-    v1.extend_from_slice(&o1.to_be_bytes());
-    v1.extend_from_slice(&[0, 0]);
-    v1.extend_from_slice(b"AAA\0");
-    let mut v2 = vec![];
-    v2.extend_from_slice(b"TZif2");
-    v2.extend_from_slice(&[0u8; 15]);
-    for n in [0u32, 0, 0, 1, 2, abbrs.len() as u32] {
-        v2.extend_from_slice(&n.to_be_bytes());
+    if r.is_null() {
+        unsafe { libc::_exit(128 + sig) }
     }
-    v2.extend_from_slice(&1_000_000_000i64.to_be_bytes());
-    v2.push(1);
-    v2.extend_from_slice(&o1.to_be_bytes());
-    v2.extend_from_slice(&[0, 0]);
-    v2.extend_from_slice(&o2.to_be_bytes());
-    v2.extend_from_slice(&[0, 4]);
-    v2.extend_from_slice(abbrs);
-    let mut out = v1;
-    out.extend(v2);
-    let p = -o2 / 3600;
-    out.extend_from_slice(format!("\nBBB{}\n", p).as_bytes());
-    out
-}
-
-fn posix_str(content: u8) -> &'static str {
-    if content == 0 {
-        "EST5EDT,M3.2.0,M11.1.0"
-    } else {
-        "CET-1CEST,M3.5.0,M10.5.0/3"
+    let name = match sig {
+        libc::SIGSEGV => "SIGSEGV",
+        libc::SIGBUS => "SIGBUS",
+        libc::SIGILL => "SIGILL",
+        libc::SIGABRT => "SIGABRT",
+        _ => "signal",
+    };
+    let sec = CUR_SECTION.try_lock().map(|s| s.clone()).unwrap_or_else(|_| "?".into());
+    unsafe {
+        (*r).viol(&sec, &format!("crash/{}:{}", name, sec), format!("section {}", sec), format!("the process received {} while operating on live TimeZone handles in this section (re-run the section in the AddressSanitizer build for the access)", name));
+        std::ptr::read(r).finish()
     }
 }
 
-static STATIC_TZ: TimeZone = jiff::tz::get!("America/New_York");
-
-/// What a handle must answer: offsets at three probe instants, name, fixed offset.
-#[derive(Clone, PartialEq, Eq, Debug)]
-struct Answers {
-    offs: [i32; 3],
-    name: Option<String>,
-    fixed: Option<i32>,
-}
-
-const PROBES: [i64; 3] = [0, 1_100_000_000, 1_720_000_000]; // 1970-01-01, 2004-11-09, 2024-07-03
-
-#[derive(Clone, PartialEq, Eq, Debug)]
-enum Desc {
-    Heap(Heap, u8),
-    Inline(Inline),
-}
-
-fn expected(d: &Desc) -> Answers {
-    match d {
-        Desc::Heap(Heap::Tzif, c) => {
-            let (o1, o2) = if *c == 0 { (3600, 7200) } else { (-3600, -7200) };
-            Answers { offs: [o1, o2, o2], name: Some(format!("Tiny/{}", c)), fixed: None }
+fn install_crash_handler(r: &Report) {
+    if cfg!(c20_plain_alloc) || cfg!(miri) {
+        return;
+    }
+    REPORT_PTR.store(r as *const Report as *mut Report, Ordering::SeqCst);
+    unsafe {
+        for sig in [libc::SIGSEGV, libc::SIGBUS, libc::SIGILL, libc::SIGABRT] {
+            let mut sa: libc::sigaction = std::mem::zeroed();
+            sa.sa_sigaction = on_crash as *const () as usize;
+            sa.sa_flags = libc::SA_ONSTACK | libc::SA_NODEFER;
+            libc::sigemptyset(&mut sa.sa_mask);
+            libc::sigaction(sig, &sa, std::ptr::null_mut());
         }
-        Desc::Heap(Heap::Posix, 0) => Answers { offs: [-18000, -18000, -14400], name: None, fixed: None },
-        Desc::Heap(Heap::Posix, _) => Answers { offs: [3600, 3600, 7200], name: None, fixed: None },
-        Desc::Inline(Inline::Utc) => Answers { offs: [0, 0, 0], name: Some("UTC".into()), fixed: Some(0) },
-        Desc::Inline(Inline::Unknown) => Answers { offs: [0, 0, 0], name: None, fixed: Some(0) },
-        Desc::Inline(Inline::FixedPlus) => Answers { offs: [1, 1, 1], name: None, fixed: Some(1) },
-        Desc::Inline(Inline::FixedMinus) => Answers { offs: [-1, -1, -1], name: None, fixed: Some(-1) },
-        Desc::Inline(Inline::Static) => Answers { offs: [-18000, -18000, -14400], name: Some("America/New_York".into()), fixed: None },
     }
 }
 
-fn observe(tz: &TimeZone) -> Answers {
-    let offs = [0, 1, 2].map(|i| tz.to_offset(Timestamp::from_second(PROBES[i]).unwrap()).seconds());
-    Answers { offs, name: tz.iana_name().map(|s| s.to_string()), fixed: tz.to_fixed_offset().ok().map(|o| o.seconds()) }
-}
-
-fn make(d: &Desc, group: usize) -> TimeZone {
-    match d {
-        Desc::Heap(k, c) => {
-            TAG.with(|t| t.set(group));
-            let tz = match k {
-                Heap::Tzif => TimeZone::tzif(&format!("Tiny/{}", c), &tiny_tzif(*c)).expect("tiny tzif"),
-                Heap::Posix => TimeZone::posix(posix_str(*c)).expect("posix"),
-            };
-            TAG.with(|t| t.set(0));
-            tz
+/// `Report::section` plus the bookkeeping the crash handler and the
+/// supervisor need.
+pub fn section(r: &Report, name: &str, f: impl FnOnce()) {
+    if let Some(s) = &r.only_section {
+        if s != name {
+            return;
         }
-        Desc::Inline(Inline::Utc) => TimeZone::UTC,
-        Desc::Inline(Inline::Unknown) => TimeZone::unknown(),
-        Desc::Inline(Inline::FixedPlus) => TimeZone::fixed(Offset::from_seconds(1).unwrap()),
-        Desc::Inline(Inline::FixedMinus) => TimeZone::fixed(Offset::from_seconds(-1).unwrap()),
-        Desc::Inline(Inline::Static) => STATIC_TZ.clone(),
     }
+    if let Ok(mut s) = CUR_SECTION.lock() {
+        *s = name.to_string();
+    }
+    if let Some(p) = progress_file(r.out.as_deref()) {
+        let _ = std::fs::write(p, name);
+    }
+    r.section(name, f);
+}
+
+fn progress_file(out: Option<&str>) -> Option<String> {
+    if cfg!(c20_plain_alloc) || cfg!(miri) {
+        return None;
+    }
+    out.map(|o| format!("{}.section", o))
+}
+
+/// The counting build runs the enumeration in a child process. A wrong count
+/// in jiff can corrupt the heap badly enough that the in-process crash
+/// handler cannot finish writing the result; the parent (whose heap is fine)
+/// then writes the verdict: a fatal signal while operating on `TimeZone`
+/// handles is a violation of the property, not an engine failure. Other
+/// non-zero exits of the child are passed on unchanged.
+fn supervise(args: &[String]) {
+    use std::os::unix::process::ExitStatusExt;
+    let out = args.iter().position(|a| a == "--out").and_then(|i| args.get(i + 1)).cloned();
+    let Some(out) = out else {
+        // results go to stdout: nothing to salvage, run in-process
+        return;
+    };
+    let exe = std::env::current_exe().expect("current_exe");
+    let status = std::process::Command::new(exe).args(&args[1..]).arg("--c20-child").status().expect("spawn child");
+    let progress = progress_file(Some(&out)).unwrap();
+    let sec = std::fs::read_to_string(&progress).unwrap_or_else(|_| "?".into());
+    let _ = std::fs::remove_file(&progress);
+    let parsed: Option<serde_json::Value> = std::fs::read_to_string(&out).ok().and_then(|t| serde_json::from_str(&t).ok());
+    let complete_with_verdict = parsed.as_ref().map(|v| v["violations"].as_array().map(|a| !a.is_empty()).unwrap_or(false)).unwrap_or(false);
+    match status.code() {
+        Some(code @ (0 | 3)) if parsed.is_some() => std::process::exit(code),
+        Some(0 | 3) => {
+            eprintln!("ENGINE-FAILURE: child ended normally but left no readable result");
+            std::process::exit(2);
+        }
+        Some(code) if code <= 128 => std::process::exit(code), // not a crash: passed on as it is
+        _ => {}
+    }
+    if complete_with_verdict {
+        // the child's crash handler got the result out before the process died
+        std::process::exit(0);
+    }
+    let signal = status.signal().or(status.code().map(|c| c - 128)).unwrap_or(0);
+    let name = match signal {
+        libc::SIGSEGV => "SIGSEGV",
+        libc::SIGBUS => "SIGBUS",
+        libc::SIGILL => "SIGILL",
+        libc::SIGABRT => "SIGABRT",
+        _ => {
+            eprintln!("ENGINE-FAILURE: child ended with {:?} and left no usable result", status);
+            std::process::exit(2);
+        }
+    };
+    let r = Report::from_args("C20");
+    r.viol(&sec, &format!("crash/{}:{}", name, sec), format!("section {}", sec), format!("the enumeration process died with {} while operating on live TimeZone handles in this section and could not write its own result (violations found before the crash are lost; re-run the section in the AddressSanitizer build for the access)", name));
+    r.note("result written by the supervising process after the enumeration process crashed");
+    r.finish()
 }
 
 // ---------------------------------------------------------------------------
@@ -253,140 +337,282 @@ fn make(d: &Desc, group: usize) -> TimeZone {
 
 #[derive(Clone, Copy, PartialEq, Eq, Debug)]
 enum Act {
-    NewHeap(u8, u8), // slot, content
-    NewInline(u8),
-    Clone(u8, u8), // from, to
-    Move(u8, u8),
+    New(u8, Desc),     // slot, maker (overwriting drops the old handle)
+    Clone(u8, u8),     // from, to:  to = from.clone()
+    CloneFrom(u8, u8), // from, to:  to.clone_from(&from)   (both live)
+    SelfAssign(u8),    // i = i.clone()
+    Move(u8, u8),      // to = take(from)
+    Swap(u8, u8),      // mem::swap (both live)
     Drop(u8),
+    Reset, // database runs only: TimeZoneDatabase::reset() (the cache lets go of its handles)
 }
 
+/// One run = a set of makers over which programs are enumerated.
 #[derive(Clone)]
+struct Run {
+    label: String,
+    makers: Vec<Desc>,
+    db: bool,
+    /// only the four original mutators {new, clone, move, drop} (the deeper thorough run)
+    classic: bool,
+}
+
+#[derive(Clone, Copy)]
 struct ModelSlot {
     desc: Desc,
     group: usize, // 0 for inline kinds
 }
 
-struct Machine {
-    heap: Heap,
-    inline: Inline,
-    real: [Option<TimeZone>; 3],
-    model: [Option<ModelSlot>; 3],
+/// The boring reference model: what each slot holds and who holds each group.
+#[derive(Clone)]
+struct Model {
+    slots: [Option<ModelSlot>; 3],
     groups_used: usize,
+    group_desc: [Option<Desc>; NG],
+    cache: [Option<usize>; 2], // database runs: group cached under name c
     base: usize,
 }
 
-impl Machine {
-    fn new(heap: Heap, inline: Inline) -> Machine {
-        let base = my_slot() * NG;
-        Machine { heap, inline, real: [None, None, None], model: [None, None, None], groups_used: 0, base }
+impl Model {
+    fn new(base: usize) -> Model {
+        Model { slots: [None; 3], groups_used: 0, group_desc: [None; NG], cache: [None; 2], base }
     }
-    fn enabled(&self) -> Vec<Act> {
+    fn enabled(&self, run: &Run) -> Vec<Act> {
         let mut v = vec![];
-        let first_empty = (0..3).find(|&i| self.model[i].is_none());
-        let target_ok = |j: usize| self.model[j].is_some() || Some(j) == first_empty;
+        let first_empty = (0..3).find(|&i| self.slots[i].is_none());
+        let target_ok = |j: usize| self.slots[j].is_some() || Some(j) == first_empty;
         for j in 0..3 {
             if target_ok(j) {
-                v.push(Act::NewHeap(j as u8, 0));
-                v.push(Act::NewHeap(j as u8, 1));
-                v.push(Act::NewInline(j as u8));
+                for m in &run.makers {
+                    v.push(Act::New(j as u8, *m));
+                }
             }
         }
         for i in 0..3 {
-            if self.model[i].is_none() {
+            if self.slots[i].is_none() {
                 continue;
             }
             for j in 0..3 {
                 if i != j && target_ok(j) {
                     v.push(Act::Clone(i as u8, j as u8));
                     v.push(Act::Move(i as u8, j as u8));
+                    if self.slots[j].is_some() && !run.classic {
+                        v.push(Act::CloneFrom(i as u8, j as u8));
+                        if i < j {
+                            v.push(Act::Swap(i as u8, j as u8));
+                        }
+                    }
                 }
+            }
+            if !run.classic {
+                v.push(Act::SelfAssign(i as u8));
             }
             v.push(Act::Drop(i as u8));
         }
+        if run.db && self.cache.iter().any(|c| c.is_some()) {
+            v.push(Act::Reset);
+        }
         v
+    }
+    /// Group for a new handle of `d` (allocating a fresh group id unless the
+    /// database cache already holds that zone).
+    fn group_for_new(&mut self, d: Desc) -> usize {
+        if !d.heap() {
+            return 0;
+        }
+        if let Desc::Db(c) = d {
+            if let Some(g) = self.cache[c as usize] {
+                return g;
+            }
+        }
+        self.groups_used += 1;
+        let g = self.base + self.groups_used;
+        self.group_desc[self.groups_used] = Some(d);
+        if let Desc::Db(c) = d {
+            self.cache[c as usize] = Some(g);
+        }
+        g
+    }
+    fn step(&mut self, a: Act) -> usize {
+        match a {
+            Act::New(j, d) => {
+                let g = self.group_for_new(d);
+                self.slots[j as usize] = Some(ModelSlot { desc: d, group: g });
+                g
+            }
+            Act::Clone(i, j) | Act::CloneFrom(i, j) => {
+                self.slots[j as usize] = self.slots[i as usize];
+                0
+            }
+            Act::SelfAssign(_) => 0,
+            Act::Move(i, j) => {
+                self.slots[j as usize] = self.slots[i as usize].take();
+                0
+            }
+            Act::Swap(i, j) => {
+                self.slots.swap(i as usize, j as usize);
+                0
+            }
+            Act::Drop(i) => {
+                self.slots[i as usize] = None;
+                0
+            }
+            Act::Reset => {
+                self.cache = [None; 2];
+                0
+            }
+        }
+    }
+    fn holders(&self, g: usize) -> usize {
+        self.slots.iter().flatten().filter(|m| m.group == g).count() + self.cache.iter().filter(|c| **c == Some(g)).count()
+    }
+}
+
+struct Machine<'a> {
+    run: &'a Run,
+    real: [Option<TimeZone>; 3],
+    model: Model,
+    db: Option<&'static TimeZoneDatabase>,
+    /// live blocks of each group right after its zone was created
+    l0: [i64; NG],
+}
+
+impl<'a> Machine<'a> {
+    fn new(run: &'a Run) -> Machine<'a> {
+        let base = my_slot() * NG;
+        if COUNTING {
+            for k in 1..NG {
+                reset_group(base + k);
+            }
+        }
+        let db = if run.db { Some(kinds::bundled_db_pregrown()) } else { None };
+        Machine { run, real: [None, None, None], model: Model::new(base), db, l0: [0; NG] }
     }
     /// Apply one action to the real handles and to the model.
     fn step(&mut self, a: Act) {
+        let g = self.model.step(a);
         match a {
-            Act::NewHeap(j, c) => {
-                self.groups_used += 1;
-                let g = self.base + self.groups_used;
-                let d = Desc::Heap(self.heap, c);
-                let tz = make(&d, g);
+            Act::New(j, d) => {
+                let before = self.model.groups_used;
+                let tz = make(&d, g, self.db);
+                if g != 0 && g - self.model.base == before && self.l0[before] == 0 {
+                    self.l0[before] = live(g);
+                }
                 self.real[j as usize] = Some(tz); // drops the old handle, if any
-                self.model[j as usize] = Some(ModelSlot { desc: d, group: g });
-            }
-            Act::NewInline(j) => {
-                let d = Desc::Inline(self.inline);
-                self.real[j as usize] = Some(make(&d, 0));
-                self.model[j as usize] = Some(ModelSlot { desc: d, group: 0 });
             }
             Act::Clone(i, j) => {
                 let c = self.real[i as usize].as_ref().unwrap().clone();
                 self.real[j as usize] = Some(c);
-                self.model[j as usize] = self.model[i as usize].clone();
+            }
+            Act::CloneFrom(i, j) => {
+                let (i, j) = (i as usize, j as usize);
+                let (src, dst) = if i < j {
+                    let (a, b) = self.real.split_at_mut(j);
+                    (a[i].as_ref().unwrap(), b[0].as_mut().unwrap())
+                } else {
+                    let (a, b) = self.real.split_at_mut(i);
+                    (b[0].as_ref().unwrap(), a[j].as_mut().unwrap())
+                };
+                dst.clone_from(src);
+            }
+            Act::SelfAssign(i) => {
+                let c = self.real[i as usize].as_ref().unwrap().clone();
+                *self.real[i as usize].as_mut().unwrap() = c;
             }
             Act::Move(i, j) => {
                 let t = self.real[i as usize].take();
                 self.real[j as usize] = t;
-                self.model[j as usize] = self.model[i as usize].take();
+            }
+            Act::Swap(i, j) => {
+                let (a, b) = self.real.split_at_mut(j as usize);
+                std::mem::swap(&mut a[i as usize], &mut b[0]);
             }
             Act::Drop(i) => {
                 self.real[i as usize] = None;
-                self.model[i as usize] = None;
+            }
+            Act::Reset => {
+                self.db.unwrap().reset();
             }
         }
     }
-    /// Invariants after a step. Returns the first violated one.
-    fn check(&self) -> Option<(String, String)> {
-        if DOUBLE_FREE.load(Ordering::SeqCst) != 0 {
-            DOUBLE_FREE.store(0, Ordering::SeqCst);
-            return Some(("double-free".into(), "a block was freed twice".into()));
+    fn kind_label(&self, d: Option<Desc>) -> String {
+        // classic runs keep their historical suffix (the run's heap kind)
+        let heaps: std::collections::BTreeSet<&str> = self.run.makers.iter().filter(|m| m.heap()).map(|m| m.heap_label()).collect();
+        if heaps.len() == 1 {
+            return heaps.into_iter().next().unwrap().to_string();
         }
-        if !cfg!(c20_plain_alloc) {
-            for k in 1..=self.groups_used {
-                let g = self.base + k;
-                let handles = self.model.iter().flatten().filter(|m| m.group == g).count();
+        d.map(|d| d.heap_label().to_string()).unwrap_or_else(|| self.run.label.clone())
+    }
+    /// Invariants after a step. Returns the first violated one as (signature, detail).
+    fn check(&self, touched: [bool; 3]) -> Option<(String, String)> {
+        self.check_inner(touched).map(|(class, d, detail)| (format!("{}:{}", class, self.kind_label(d)), detail))
+    }
+    /// The allocator's view of every group somebody holds.
+    fn floor(&self, k: usize) -> i64 {
+        // While anybody holds the zone none of its blocks may go away (for a
+        // zone from the database the cache's own entry may: the name string
+        // it keeps is released by `reset`).
+        if matches!(self.model.group_desc[k], Some(Desc::Db(_))) {
+            1
+        } else {
+            self.l0[k]
+        }
+    }
+    fn all_alive(&self) -> bool {
+        !COUNTING || (1..=self.model.groups_used).all(|k| self.model.holders(self.model.base + k) == 0 || live(self.model.base + k) >= self.floor(k))
+    }
+    fn check_inner(&self, touched: [bool; 3]) -> Option<(&'static str, Option<Desc>, String)> {
+        if COUNTING {
+            for k in 1..=self.model.groups_used {
+                let g = self.model.base + k;
+                let gd = self.model.group_desc[k];
+                if let Some((s, d)) = alloc_complaint(g) {
+                    let s = if s == "double-free" { "double-free" } else { "dealloc-layout-mismatch" };
+                    return Some((s, gd, format!("group {}: {}", k, d)));
+                }
+                let handles = self.model.holders(g);
                 let l = live(g);
-                if handles > 0 && l <= 0 {
-                    return Some(("freed-while-handles-live".into(), format!("group {}: {} handles in the model but {} live blocks", k, handles, l)));
+                if handles > 0 && l < self.floor(k) {
+                    return Some(("freed-while-handles-live", gd, format!("group {}: {} handles in the model but {} live blocks of {}", k, handles, l, self.l0[k])));
                 }
                 if handles == 0 && l != 0 {
-                    return Some(("leak-after-last-handle-dropped".into(), format!("group {}: no handles but {} live blocks", k, l)));
+                    return Some(("leak-after-last-handle-dropped", gd, format!("group {}: no handles but {} live blocks", k, l)));
                 }
             }
         }
         // observers: query, compare, wrap
         for i in 0..3 {
-            let (Some(tz), Some(m)) = (&self.real[i], &self.model[i]) else {
-                if self.real[i].is_some() != self.model[i].is_some() {
-                    return Some(("slot-mismatch".into(), format!("slot {}", i)));
+            let (Some(tz), Some(m)) = (&self.real[i], &self.model.slots[i]) else {
+                if self.real[i].is_some() != self.model.slots[i].is_some() {
+                    return Some(("slot-mismatch", None, format!("slot {}", i)));
                 }
                 continue;
             };
-            let got = observe(tz);
-            let want = expected(&m.desc);
-            if got != want {
-                return Some(("query-answer".into(), format!("slot {} ({:?}): got {:?} want {:?}", i, m.desc, got, want)));
+            let md = Some(m.desc);
+            let w = want(&m.desc);
+            // slots the action did not name get the cheap reads only
+            if let Err(e) = kinds::check_handle_opt(tz, w, touched[i]) {
+                return Some(("query-answer", md, format!("slot {} ({:?}): {}", i, m.desc, e)));
             }
             #[allow(clippy::eq_op)]
             if !(tz == tz) {
-                return Some(("eq-not-reflexive".into(), format!("slot {}", i)));
+                return Some(("eq-not-reflexive", md, format!("slot {}", i)));
             }
-            let z = Zoned::new(Timestamp::from_second(PROBES[2]).unwrap(), tz.clone());
-            if z.offset().seconds() != want.offs[2] || z.time_zone() != tz {
-                return Some(("wrap-in-zoned".into(), format!("slot {}", i)));
+            if touched[i] {
+                let other = (1..3).find_map(|k| self.real[(i + k) % 3].as_ref());
+                if let Err((class, at)) = wrap(tz, other, w, &|| self.all_alive()) {
+                    return Some((class, md, format!("slot {} ({:?}): {}", i, m.desc, at)));
+                }
             }
-            drop(z);
             for j in (i + 1)..3 {
-                let (Some(tz2), Some(m2)) = (&self.real[j], &self.model[j]) else { continue };
+                let (Some(tz2), Some(m2)) = (&self.real[j], &self.model.slots[j]) else { continue };
                 let want_eq = m.desc == m2.desc;
                 let (a, b) = (tz == tz2, tz2 == tz);
                 if a != b {
-                    return Some(("eq-not-symmetric".into(), format!("slots {} {}", i, j)));
+                    return Some(("eq-not-symmetric", md, format!("slots {} {}", i, j)));
                 }
                 if a != want_eq {
-                    return Some(("eq-value".into(), format!("slots {} {}: {:?} vs {:?} -> {} (want {})", i, j, m.desc, m2.desc, a, want_eq)));
+                    return Some(("eq-value", md, format!("slots {} {}: {:?} vs {:?} -> {} (want {})", i, j, m.desc, m2.desc, a, want_eq)));
                 }
             }
         }
@@ -395,51 +621,92 @@ impl Machine {
     fn finish(mut self) -> Option<(String, String)> {
         for i in 0..3 {
             self.real[i] = None;
-            self.model[i] = None;
+            self.model.slots[i] = None;
         }
-        let r = self.check();
+        if let Some(db) = self.db {
+            db.reset();
+            self.model.cache = [None; 2];
+        }
+        let r = self.check([true; 3]);
         // reset the group counters of this thread slot for the next program
-        for k in 1..NG {
-            LIVE[self.base + k].store(0, Ordering::SeqCst);
+        if COUNTING {
+            for k in 1..NG {
+                reset_group(self.model.base + k);
+            }
         }
         r
     }
 }
 
-struct Stats {
-    programs: AtomicU64,
-    steps: AtomicU64,
+/// The slots an action names (they get the full set of observers; the others
+/// the cheap reads and the comparisons).
+fn touched(a: &Act) -> [bool; 3] {
+    let mut t = [false; 3];
+    match *a {
+        Act::New(j, _) | Act::SelfAssign(j) => t[j as usize] = true,
+        Act::Clone(i, j) | Act::CloneFrom(i, j) | Act::Move(i, j) | Act::Swap(i, j) => {
+            t[i as usize] = true;
+            t[j as usize] = true;
+        }
+        Act::Drop(_) => {}
+        Act::Reset => t = [true; 3],
+    }
+    t
 }
 
-/// Depth-first enumeration of all maximal programs below `prefix`.
-fn explore(r: &Report, sec: &str, heap: Heap, inline: Inline, prefix: &mut Vec<Act>, depth: usize, st: &Stats) {
-    // replay the prefix from scratch (no state merging, no cloning of live machines)
-    if prefix.len() == depth {
-        run_program(r, sec, heap, inline, prefix, st);
+struct Stats {
+    /// database runs share one process-wide cache: after the first violation
+    /// there the cache itself may be unsound, the rest of the run is skipped
+    db_broken: std::sync::atomic::AtomicBool,
+    programs: AtomicU64,
+    steps: AtomicU64,
+    acts: [AtomicU64; 8],
+}
+
+fn act_index(a: &Act) -> usize {
+    match a {
+        Act::New(..) => 0,
+        Act::Clone(..) => 1,
+        Act::CloneFrom(..) => 2,
+        Act::SelfAssign(..) => 3,
+        Act::Move(..) => 4,
+        Act::Swap(..) => 5,
+        Act::Drop(..) => 6,
+        Act::Reset => 7,
+    }
+}
+const ACT_NAMES: [&str; 8] = ["new", "clone", "clone_from", "self_assign", "move", "swap", "drop", "cache_reset"];
+
+/// Depth-first enumeration of all maximal programs below `prefix` (the model
+/// alone decides which actions are enabled; real handles are only created
+/// when a maximal program is executed, from scratch).
+fn explore(r: &Report, sec: &str, run: &Run, model: &Model, prefix: &mut Vec<Act>, depth: usize, st: &Stats) {
+    if run.db && st.db_broken.load(Ordering::Relaxed) {
         return;
     }
-    let mut m = Machine::new(heap, inline);
-    for a in prefix.iter() {
-        m.step(*a);
+    if prefix.len() == depth {
+        run_program(r, sec, run, prefix, st);
+        return;
     }
-    let acts = m.enabled();
-    let _ = m.finish();
-    for a in acts {
+    for a in model.enabled(run) {
+        let mut m2 = model.clone();
+        m2.step(a);
         prefix.push(a);
-        explore(r, sec, heap, inline, prefix, depth, st);
+        explore(r, sec, run, &m2, prefix, depth, st);
         prefix.pop();
     }
 }
 
-fn run_program(r: &Report, sec: &str, heap: Heap, inline: Inline, prog: &[Act], st: &Stats) {
+fn run_program(r: &Report, sec: &str, run: &Run, prog: &[Act], st: &Stats) {
     st.programs.fetch_add(1, Ordering::Relaxed);
-    let case = || format!("{:?}/{:?} {:?}", heap, inline, prog);
+    let case = || format!("{} {:?}", run.label, prog);
     let res = guard(|| {
-        let mut m = Machine::new(heap, inline);
+        let mut m = Machine::new(run);
         for (k, a) in prog.iter().enumerate() {
             m.step(*a);
             st.steps.fetch_add(1, Ordering::Relaxed);
-            if let Some((sig, d)) = m.check() {
+            st.acts[act_index(a)].fetch_add(1, Ordering::Relaxed);
+            if let Some((sig, d)) = m.check(touched(a)) {
                 let _ = m.finish();
                 return Some((sig, format!("after step {} ({:?}): {}", k, a, d)));
             }
@@ -447,304 +714,161 @@ fn run_program(r: &Report, sec: &str, heap: Heap, inline: Inline, prog: &[Act], 
         m.finish().map(|(s, d)| (s, format!("after dropping everything: {}", d)))
     });
     match res {
-        Err(p) => r.viol(sec, &format!("program/{}", panic_sig(&p)), case(), p),
-        Ok(Some((sig, d))) => r.viol(sec, &format!("program/{}:{:?}", sig, heap), case(), d),
+        Err(p) => {
+            if run.db {
+                st.db_broken.store(true, Ordering::Relaxed);
+            }
+            r.viol(sec, &format!("program/{}", panic_sig(&p)), case(), p)
+        }
+        Ok(Some((sig, d))) => {
+            if run.db {
+                st.db_broken.store(true, Ordering::Relaxed);
+                r.note(format!("{}: stopped at the first violation (the database cache is shared by all programs of the section)", sec));
+            }
+            r.viol(sec, &format!("program/{}", sig), case(), d)
+        }
         Ok(None) => {}
     }
 }
 
-// ---------------------------------------------------------------------------
-// schedules (baton)
-// ---------------------------------------------------------------------------
-
-#[derive(Clone, Copy, Debug, PartialEq, Eq)]
-enum TOp {
-    Clone,
-    Drop,
-    Query,
-    SendBack, // hand one of my handles to the main thread
-}
-
-/// All interleavings of per-thread op sequences, as a sequence of thread ids.
-fn interleavings(lens: &[usize]) -> Vec<Vec<usize>> {
-    fn rec(rem: &mut Vec<usize>, cur: &mut Vec<usize>, out: &mut Vec<Vec<usize>>) {
-        if rem.iter().all(|&x| x == 0) {
-            out.push(cur.clone());
+fn run_section(r: &Report, run: &Run, depth: usize, st: &Stats) {
+    let sec = format!("{}:{}", if run.classic { "programs-classic" } else { "programs" }, run.label);
+    section(r, &sec, || {
+        // reference answers first (for the database kinds this touches the
+        // cache, which must not happen in the middle of a program)
+        for m in &run.makers {
+            let _ = want(m);
+        }
+        let base = my_slot() * NG;
+        let m0 = Model::new(base);
+        if depth < 2 || run.db || cfg!(miri) {
+            // serial: the database cache is process-wide; no thread pool under
+            // Miri (crossbeam-epoch trips Stacked Borrows on its own)
+            explore(r, &sec, run, &m0, &mut vec![], depth, st);
             return;
         }
-        for t in 0..rem.len() {
-            if rem[t] > 0 {
-                rem[t] -= 1;
-                cur.push(t);
-                rec(rem, cur, out);
-                cur.pop();
-                rem[t] += 1;
+        // parallelise over the first two actions; every worker replays from scratch
+        let mut prefixes: Vec<(Vec<Act>, Model)> = vec![];
+        for a in m0.enabled(run) {
+            let mut m1 = m0.clone();
+            m1.step(a);
+            for b in m1.enabled(run) {
+                let mut m2 = m1.clone();
+                m2.step(b);
+                prefixes.push((vec![a, b], m2));
             }
         }
-    }
-    let mut out = vec![];
-    rec(&mut lens.to_vec(), &mut vec![], &mut out);
-    out
-}
-
-fn run_schedule(r: &Report, heap: Heap, scripts: &[Vec<TOp>], order: &[usize], group: usize) -> Option<(String, String)> {
-    use std::sync::{Arc as StdArc, Condvar, Mutex};
-    let d = Desc::Heap(heap, 0);
-    let root = make(&d, group);
-    let want = expected(&d);
-    // baton: (position in `order`)
-    let baton = StdArc::new((Mutex::new(0usize), Condvar::new()));
-    let fail: StdArc<Mutex<Option<(String, String)>>> = StdArc::new(Mutex::new(None));
-    let returned: StdArc<Mutex<Vec<TimeZone>>> = StdArc::new(Mutex::new(vec![]));
-    let handles_in_model = StdArc::new(AtomicI64::new(1)); // the root
-    let order: StdArc<Vec<usize>> = StdArc::new(order.to_vec());
-    let mut joins = vec![];
-    for (t, script) in scripts.iter().enumerate() {
-        let mine = root.clone();
-        handles_in_model.fetch_add(1, Ordering::SeqCst);
-        let (baton, fail, returned, him, order, script, want) =
-            (baton.clone(), fail.clone(), returned.clone(), handles_in_model.clone(), order.clone(), script.clone(), want.clone());
-        joins.push(std::thread::spawn(move || {
-            let mut hs: Vec<TimeZone> = vec![mine];
-            for op in script {
-                // wait for my turn
-                let (m, cv) = &*baton;
-                let mut pos = m.lock().unwrap();
-                while order[*pos] != t {
-                    pos = cv.wait(pos).unwrap();
-                }
-                match op {
-                    TOp::Clone => {
-                        if let Some(h) = hs.last() {
-                            hs.push(h.clone());
-                            him.fetch_add(1, Ordering::SeqCst);
-                        }
-                    }
-                    TOp::Drop => {
-                        if hs.pop().is_some() {
-                            him.fetch_sub(1, Ordering::SeqCst);
-                        }
-                    }
-                    TOp::Query => {
-                        if let Some(h) = hs.last() {
-                            let got = observe(h);
-                            if got != want {
-                                *fail.lock().unwrap() = Some(("schedule/query-answer".into(), format!("thread {}: {:?}", t, got)));
-                            }
-                        }
-                    }
-                    TOp::SendBack => {
-                        if let Some(h) = hs.pop() {
-                            returned.lock().unwrap().push(h);
-                        }
-                    }
-                }
-                // accounting after every operation, under the baton
-                let handles = him.load(Ordering::SeqCst);
-                let l = live(group);
-                if !cfg!(c20_plain_alloc) && handles > 0 && l <= 0 {
-                    *fail.lock().unwrap() = Some(("schedule/freed-while-handles-live".into(), format!("{} handles, {} live blocks", handles, l)));
-                }
-                *pos += 1;
-                cv.notify_all();
-            }
-            // thread exit drops its remaining handles
-            him.fetch_sub(hs.len() as i64, Ordering::SeqCst);
-            drop(hs);
-        }));
-    }
-    for j in joins {
-        if j.join().is_err() {
-            return Some(("schedule/thread-panicked".into(), String::new()));
-        }
-    }
-    let _ = r;
-    if let Some(f) = fail.lock().unwrap().take() {
-        return Some(f);
-    }
-    // the root and everything sent back still answer correctly
-    let back = std::mem::take(&mut *returned.lock().unwrap());
-    for h in back.iter().chain(std::iter::once(&root)) {
-        if observe(h) != want {
-            return Some(("schedule/query-answer-after-join".into(), String::new()));
-        }
-    }
-    if !cfg!(c20_plain_alloc) && live(group) <= 0 {
-        return Some(("schedule/freed-while-handles-live".into(), "root still held".into()));
-    }
-    drop(back);
-    drop(root);
-    if !cfg!(c20_plain_alloc) && live(group) != 0 {
-        let l = live(group);
-        LIVE[group].store(0, Ordering::SeqCst);
-        return Some(("schedule/leak-after-last-handle-dropped".into(), format!("{} live blocks", l)));
-    }
-    if DOUBLE_FREE.swap(0, Ordering::SeqCst) != 0 {
-        return Some(("schedule/double-free".into(), String::new()));
-    }
-    None
+        prefixes.par_iter().for_each(|(p, m)| {
+            let mut p = p.clone();
+            explore(r, &sec, run, m, &mut p, depth, st);
+        });
+    });
 }
 
 fn main() {
-    let r = Report::from_args("C20");
     let args: Vec<String> = std::env::args().collect();
+    if COUNTING && !cfg!(miri) && !args.iter().any(|a| a == "--c20-child") {
+        supervise(&args);
+    }
+    let r = Report::from_args("C20");
     let depth_override = args.iter().position(|a| a == "--depth").map(|i| args[i + 1].parse::<usize>().unwrap());
     let only_programs = args.iter().any(|a| a == "--programs-only");
     let sanitizer = cfg!(c20_plain_alloc);
     let depth = depth_override.unwrap_or(if r.quick() { 5 } else { 6 });
-    let st = Stats { programs: AtomicU64::new(0), steps: AtomicU64::new(0) };
+    install_crash_handler(&r);
+    let st = Stats { db_broken: std::sync::atomic::AtomicBool::new(false), programs: AtomicU64::new(0), steps: AtomicU64::new(0), acts: [const { AtomicU64::new(0) }; 8] };
 
-    let inlines = [Inline::Utc, Inline::Unknown, Inline::FixedPlus, Inline::FixedMinus, Inline::Static];
-    for heap in [Heap::Tzif, Heap::Posix] {
-        for inline in inlines {
-            let sec = format!("programs:{:?}+{:?}", heap, inline);
-            r.section(&sec, || {
-                // parallelise over the first two actions; every worker replays from scratch
-                let mut prefixes: Vec<Vec<Act>> = vec![];
-                let m0 = Machine::new(heap, inline);
-                let a0 = m0.enabled();
-                let _ = m0.finish();
-                for a in a0 {
-                    let mut m = Machine::new(heap, inline);
-                    m.step(a);
-                    let a1 = m.enabled();
-                    let _ = m.finish();
-                    for b in a1 {
-                        prefixes.push(vec![a, b]);
-                    }
-                }
-                if depth < 2 {
-                    prefixes = vec![vec![]];
-                }
-                // thorough: one more level for one inline kind per heap kind
-                let deeper = r.thorough() && depth_override.is_none() && matches!((heap, inline), (Heap::Tzif, Inline::Static) | (Heap::Posix, Inline::FixedMinus));
-                let d = if deeper { depth + 1 } else { depth };
-                if cfg!(miri) {
-                    // no thread pool under Miri (crossbeam-epoch trips Stacked Borrows on its own)
-                    for p in &prefixes {
-                        let mut p = p.clone();
-                        explore(&r, &sec, heap, inline, &mut p, d, &st);
-                    }
-                } else {
-                    prefixes.par_iter().for_each(|p| {
-                        let mut p = p.clone();
-                        explore(&r, &sec, heap, inline, &mut p, d, &st);
-                    });
-                }
-            });
+    // must come first: changes TZ in the environment while no other thread exists
+    if !only_programs && !cfg!(miri) {
+        section(&r, "system-local", || extra::system_local(&r));
+    }
+
+    let inlines = [("Utc", Desc::Utc), ("Unknown", Desc::Unknown), ("FixedPlus", Desc::Fixed(1)), ("FixedMinus", Desc::Fixed(-1)), ("Static", Desc::Static)];
+    for (hl, h0, h1) in [("Tzif", Desc::Tzif(0), Desc::Tzif(1)), ("Posix", Desc::Posix(0), Desc::Posix(1))] {
+        for (il, i) in inlines {
+            let run = Run { label: format!("{}+{}", hl, il), makers: vec![h0, h1, i], db: false, classic: false };
+            // thorough: one level more for two inline kinds per heap kind (a
+            // pointer-like one and a packed negative offset); the inline kind
+            // does not take part in the heap accounting, so the other pairs
+            // stay at the quick depth
+            let deeper = r.thorough() && depth_override.is_none() && matches!((hl, il), ("Tzif", "Static") | ("Tzif", "FixedMinus") | ("Posix", "FixedMinus") | ("Posix", "Utc"));
+            if r.thorough() && depth_override.is_none() && !deeper {
+                // the other pairs: the wide alphabet at the quick depth, the four
+                // original mutators {new, clone, move, drop} at the full depth
+                run_section(&r, &run, depth - 1, &st);
+                run_section(&r, &Run { classic: true, ..run }, depth, &st);
+            } else {
+                run_section(&r, &run, depth, &st);
+            }
         }
+    }
+    // both Arc kinds (and the static kind) side by side
+    run_section(&r, &Run { label: "Tzif+Posix".into(), makers: vec![Desc::Tzif(0), Desc::Posix(0), Desc::Static], db: false, classic: false }, depth, &st);
+    // Everything up to here consults the allocator before it reads through a
+    // handle. The sections below are less guarded (the database cache, the
+    // constructor paths, the equality matrix, free-running threads); on a
+    // tree whose counts are already known to be wrong they could only crash,
+    // so the counting build leaves them out once it has a verdict. (The
+    // sanitizer builds run everything: there the bad access is the report;
+    // and a crash in the counting build is turned into a verdict as well.)
+    let broken = || COUNTING && r.n_viol_sigs() > 0 && r.only_section.is_none();
+    let already = broken();
+    if already {
+        r.note("database-cache programs, constructors, unwind, eq-matrix and free-running skipped: earlier sections already report violations");
+    }
+    // handles cloned out of the bundled database's cache; serial, one level less
+    let db_depth = depth_override.unwrap_or(depth).saturating_sub(1).max(1);
+    for (il, i) in [("Static", Desc::Static), ("Utc", Desc::Utc)] {
+        if (il == "Utc" && r.quick()) || already {
+            continue;
+        }
+        let run = Run { label: format!("Db+{}", il), makers: vec![Desc::Db(0), Desc::Db(1), i], db: true, classic: false };
+        run_section(&r, &run, db_depth, &st);
     }
     r.add_states(st.programs.load(Ordering::Relaxed));
     r.add_transitions(st.steps.load(Ordering::Relaxed));
     r.add_validated(st.steps.load(Ordering::Relaxed));
     r.count("programs", st.programs.load(Ordering::Relaxed));
     r.count("program_depth", depth as u64);
+    for (k, n) in ACT_NAMES.iter().enumerate() {
+        r.outcome(&format!("program-steps:{}", n), st.acts[k].load(Ordering::Relaxed));
+    }
 
     if !only_programs {
-        r.section("fixed-offsets", || {
-            let n: u64 = (-93599..=93599i32)
-                .into_par_iter()
-                .map(|s| {
-                    let res = guard(|| {
-                        let o = Offset::from_seconds(s).unwrap();
-                        let tz = TimeZone::fixed(o);
-                        let c = tz.clone();
-                        let ok = tz.to_fixed_offset().ok() == Some(o)
-                            && tz.to_offset(Timestamp::UNIX_EPOCH) == o
-                            && tz.to_offset(Timestamp::MIN) == o
-                            && c == tz
-                            && c.to_fixed_offset().ok() == Some(o)
-                            && (s == 0 || TimeZone::fixed(Offset::from_seconds(-s).unwrap()) != tz);
-                        drop(tz);
-                        ok && c.to_offset(Timestamp::MAX) == o
-                    });
-                    match res {
-                        Ok(true) => {}
-                        Ok(false) => r.viol("fixed-offsets", "fixed/offset-not-reproduced", format!("offset {}s", s), "fixed(o) does not reproduce o"),
-                        Err(p) => r.viol("fixed-offsets", &format!("fixed/{}", panic_sig(&p)), format!("offset {}s", s), p),
-                    }
-                    1
-                })
-                .sum();
-            r.add_states(n);
-            r.add_validated(n);
-            r.count("fixed_offsets", n);
-        });
-
-        r.section("schedules", || {
-            // program shapes: every script of length <= L over {clone, drop, query, send}
-            let ops = [TOp::Clone, TOp::Drop, TOp::Query, TOp::SendBack];
-            let mut scripts2: Vec<Vec<TOp>> = vec![];
-            for a in ops {
-                for b in ops {
-                    scripts2.push(vec![a, b]);
-                }
-            }
-            let mut scripts3: Vec<Vec<TOp>> = vec![];
-            if r.thorough() {
-                for a in ops {
-                    for b in ops {
-                        for c in ops {
-                            scripts3.push(vec![a, b, c]);
-                        }
-                    }
-                }
-            }
-            let mut n_sched = 0u64;
-            let base = my_slot() * NG;
-            for heap in [Heap::Tzif, Heap::Posix] {
-                // two threads x two ops: 16 x 16 shapes x 6 orders
-                let mut shapes: Vec<Vec<Vec<TOp>>> = vec![];
-                for s1 in &scripts2 {
-                    for s2 in &scripts2 {
-                        shapes.push(vec![s1.clone(), s2.clone()]);
-                    }
-                }
-                // three threads x one/two ops (diagonal sample of shapes is NOT used: all shapes of one op each)
-                for a in ops {
-                    for b in ops {
-                        for c in ops {
-                            shapes.push(vec![vec![a], vec![b], vec![c]]);
-                        }
-                    }
-                }
-                if r.thorough() {
-                    for s1 in &scripts3 {
-                        for s2 in &scripts3 {
-                            shapes.push(vec![s1.clone(), s2.clone()]);
-                        }
-                    }
-                    for s1 in &scripts2 {
-                        for s2 in &scripts2 {
-                            for c in ops {
-                                shapes.push(vec![s1.clone(), s2.clone(), vec![c]]);
-                            }
-                        }
-                    }
-                }
-                for shape in &shapes {
-                    let lens: Vec<usize> = shape.iter().map(|s| s.len()).collect();
-                    for order in interleavings(&lens) {
-                        n_sched += 1;
-                        let g = base + 1 + (n_sched as usize % (NG - 1));
-                        LIVE[g].store(0, Ordering::SeqCst);
-                        if let Some((sig, d)) = run_schedule(&r, heap, shape, &order, g) {
-                            r.viol("schedules", &format!("{}:{:?}", sig, heap), format!("{:?} scripts {:?} order {:?}", heap, shape, order), d);
-                        }
-                    }
-                }
-            }
-            r.add_states(n_sched);
-            r.add_transitions(n_sched * 4);
-            r.count("schedules", n_sched);
-        });
+        section(&r, "fixed-offsets", || extra::fixed_offsets(&r));
+        section(&r, "schedules", || sched::schedules(&r));
     }
+    for (name, f) in [("constructors", extra::constructors as fn(&Report)), ("unwind", extra::unwind), ("eq-matrix", extra::eq_matrix), ("free-running", sched::free_running)] {
+        // free-running is also reachable on its own under Miri: `--section free-running`
+        if only_programs && !(name == "free-running" && r.only_section.as_deref() == Some("free-running")) {
+            continue;
+        }
+        if broken() {
+            if !already {
+                r.note(format!("{} skipped: earlier sections already report violations", name));
+            }
+            continue;
+        }
+        section(&r, name, || f(&r));
+    }
+    kinds::self_check(&r);
 
+    if COUNTING {
+        if let Some((s, d)) = alloc_complaint(0) {
+            r.viol("allocator", &format!("allocator/{}:untagged", s), "whole run", d);
+        }
+    }
     r.outcome(if sanitizer { "build:plain-allocator(sanitizer is the oracle)" } else { "build:counting-allocator" }, 1);
-    r.sample(json!({"program": format!("{:?}", [Act::NewHeap(0, 0), Act::Clone(0, 1), Act::Drop(0), Act::NewHeap(0, 1), Act::Move(1, 2)]),
-        "observers_after_every_step": "live-block accounting per heap group, query(3 probes, iana_name, to_fixed_offset), eq reflexive/symmetric/value for every pair, wrap in Zoned"}));
+    r.sample(json!({"program": format!("{:?}", [Act::New(0, Desc::Tzif(0)), Act::Clone(0, 1), Act::Drop(0), Act::New(0, Desc::Tzif(1)), Act::Swap(0, 1), Act::CloneFrom(1, 0)]),
+        "observers_after_every_step": "live-block accounting per heap group (cache = holder), every read path of every live handle against the reference model and a fresh handle's fingerprint, eq reflexive/symmetric/value for every pair, a clone moved through Zoned (new/clone/with_time_zone/arithmetic/ambiguous)"}));
     if r.only_section.is_none() {
-        r.require(st.programs.load(Ordering::Relaxed) > 1000, "more than 1000 programs executed");
+        r.require(st.programs.load(Ordering::Relaxed) > 1000 || depth < 3, "more than 1000 programs executed");
+        if depth >= 3 {
+            for (k, n) in ACT_NAMES.iter().enumerate() {
+                r.require(st.acts[k].load(Ordering::Relaxed) > 0 || (already && *n == "cache_reset"), &format!("program action {} was taken", n));
+            }
+        }
     }
+    let _ = (Offset::UTC, Timestamp::UNIX_EPOCH, Zoned::default);
     r.finish();
 }
